@@ -179,6 +179,45 @@ pub fn profile(name: &str) -> Profile {
                 S::AW_LOAD, S::AW_STORE_SWAP, S::AW_STORE_DEC, S::AW_SWAP, S::AW_CAS, S::AW_CAS, S::AW_CAS, S::AW_CAS, S::AW_CAS_TAG, S::DECW_SUB,
             ];
         }
+        "c08r" | "c09r" => {
+            // CASes in flight while the same pointer is re-written at other epochs (only the internal stamp changes)
+            let weak = name == "c09r";
+            p.name = if weak { "c09r" } else { "c08r" };
+            p.record_cells = !weak;
+            p.record_wcells = weak;
+            p.nroots = if weak { 1 } else { 1 };
+            p.nwroots = if weak { 1 } else { 1 };
+            p.tags = true;
+            p.prefill = 6;
+            p.threads = (2, 4);
+            let caser = Role {
+                name: "caser",
+                weights: w(&[(K::Load, 10), (K::Cas, 18), (K::CasWeak, 3), (K::CasTag, 5), (K::RcSnapshot, 3), (K::Counted, 3), (K::Pin, 2), (K::Unpin, 2), (K::New, 3), (K::WithTag, 2)]),
+                ops: (5, 14),
+            };
+            let restamper = Role {
+                name: "restamper",
+                weights: w(&[(K::Restamp, 18), (K::Churn, 10), (K::Store, 2), (K::Swap, 2), (K::Load, 2), (K::Unpin, 3), (K::CasTag, 2)]),
+                ops: (5, 14),
+            };
+            let wcaser = Role {
+                name: "weak-caser",
+                weights: w(&[(K::WLoad, 10), (K::WCas, 18), (K::WCasTag, 5), (K::WeakSnap, 3), (K::WsCounted, 3), (K::Downgrade, 4), (K::SnapDowngrade, 3), (K::Load, 3), (K::Pin, 2), (K::Unpin, 2), (K::WithTag, 2)]),
+                ops: (5, 14),
+            };
+            let wrestamper = Role {
+                name: "weak-restamper",
+                weights: w(&[(K::WRestamp, 18), (K::Churn, 10), (K::WStore, 2), (K::WSwap, 2), (K::WLoad, 2), (K::Unpin, 3), (K::WCasTag, 2), (K::Restamp, 4)]),
+                ops: (5, 14),
+            };
+            if weak {
+                p.roles = vec![wcaser, wrestamper];
+                p.stall_sites = vec![S::AW_CAS, S::AW_CAS, S::AW_CAS, S::AW_CAS_TAG, S::AW_LOAD];
+            } else {
+                p.roles = vec![caser, restamper];
+                p.stall_sites = vec![S::ARC_CAS_RETRY, S::ARC_CAS_RETRY, S::ARC_CAS_RETRY, S::ARC_CAS, S::ARC_CAS, S::ARC_CAS_TAG, S::ARC_TIMESTAMP];
+            }
+        }
         "c02f" | "c01f" | "c05f" | "c03f" => {
             // focused workloads: droppers / unlinkers against readers / upgraders on prefilled structures
             let dropper = Role {
@@ -211,6 +250,17 @@ pub fn profile(name: &str) -> Profile {
                 weights: w(&[(K::Pin, 3), (K::WLoad, 10), (K::WsCounted, 10), (K::WeakSnap, 4), (K::WeakClone, 3), (K::WeakDrop, 5), (K::Upgrade, 4), (K::WsUpgrade, 4), (K::Deref, 8), (K::Unpin, 2), (K::WCas, 2), (K::Load, 3), (K::SnapDowngrade, 3)]),
                 ops: (6, 20),
             };
+            // readers that keep an outer guard (and what they loaded under it) while re-activating inner guards
+            let nested_reader = Role {
+                name: "nested-reader",
+                weights: w(&[(K::Pin, 8), (K::Load, 9), (K::Reactivate, 10), (K::ReactivateAfter, 2), (K::Deref, 12), (K::WLoad, 2), (K::WsUpgrade, 3), (K::Unpin, 1), (K::RcSnapshot, 1)]),
+                ops: (10, 30),
+            };
+            let nested_weak_reader = Role {
+                name: "nested-weak-reader",
+                weights: w(&[(K::Pin, 8), (K::WLoad, 10), (K::Reactivate, 10), (K::ReactivateAfter, 2), (K::WeakSnap, 3), (K::WsCounted, 4), (K::WsUpgrade, 3), (K::Deref, 8), (K::Unpin, 1), (K::WeakDrop, 2)]),
+                ops: (10, 30),
+            };
             p.prefill = 16;
             p.threads = (3, 4);
             p.nroots = 3;
@@ -219,7 +269,7 @@ pub fn profile(name: &str) -> Profile {
                 "c02f" => {
                     p.name = "c02f";
                     p.long_chain = 700;
-                    p.roles = vec![dropper, reader, unlinker, reader_clone()];
+                    p.roles = vec![dropper, reader, unlinker, reader_clone(), nested_reader];
                     p.stall_sites = vec![
                         S::DECS_LOAD, S::DECS_LOAD, S::DECS_CAS, S::COLLECT_AFTER_ADVANCE, S::COLLECT_AFTER_ADVANCE, S::COLLECT_POP,
                         S::COLLECT_POP, S::BAG_CALL, S::BAG_CALL, S::DISP_CHILD, S::DISP_SIBLING, S::DISP_SIBLING, S::DISP_CHILD_CAS,
@@ -231,7 +281,7 @@ pub fn profile(name: &str) -> Profile {
                     p.roles = vec![dropper, upgrader, unlinker];
                     p.stall_sites = vec![
                         S::INCS_ADD2, S::INCS_ADD2, S::INCS_ADD2, S::INCS_ADD1, S::DECS_LOAD, S::DECS_CAS, S::TD_LOAD, S::TD_CAS,
-                        S::COLLECT_POP, S::BAG_CALL, S::DISP_CHILD_CAS, S::DISP_LOAD, 120,
+                        S::COLLECT_POP, S::BAG_CALL, S::DISP_CHILD_CAS, S::DISP_LOAD, S::DISP_EPOCH, S::DISP_EPOCH, 120,
                     ];
                 }
                 "c05f" => {
@@ -239,12 +289,12 @@ pub fn profile(name: &str) -> Profile {
                     p.roles = vec![dropper, upgrader, reader];
                     p.stall_sites = vec![
                         S::INCS_ADD1, S::INCS_ADD2, S::INCS_ADD2, S::IND_LOAD, S::IND_CAS, S::TD_LOAD, S::TD_CAS, S::TD_CAS,
-                        S::DISP_CHILD_CAS, S::DISP_SIBLING, S::DISP_LOAD, S::DECS_CAS, S::COLLECT_POP, S::BAG_CALL, 120,
+                        S::DISP_CHILD_CAS, S::DISP_SIBLING, S::DISP_LOAD, S::DISP_EPOCH, S::DISP_EPOCH, S::DECS_CAS, S::COLLECT_POP, S::BAG_CALL, 120,
                     ];
                 }
                 _ => {
                     p.name = "c03f";
-                    p.roles = vec![weak_dropper, weak_reader, dropper];
+                    p.roles = vec![weak_dropper, weak_reader, dropper, nested_weak_reader];
                     p.stall_sites = vec![
                         S::DECW_SUB, S::DECW_DEFER, S::DECW_DEFER, S::TRY_DEALLOC_LOAD, S::TRY_DEALLOC_LOAD, S::INCW_LOAD,
                         S::INCW_CAS, S::INCW_ADD1, S::INCW_ADD2, S::INCW_ADD2, S::INCW_ADD2, S::DISP_WEAKED, S::DISP_WEAKED,
@@ -341,6 +391,32 @@ pub fn profile(name: &str) -> Profile {
             p.roles = vec![downgrader, churner, dropper];
             p.stall_sites = vec![S::INCW_CAS, S::INCW_CAS, S::INCW_CAS, S::INCW_CAS, S::INCW_LOAD, S::INCW_ADD1, S::DISP_WEAKED, S::DECS_CAS, 120];
         }
+        "c10b" => {
+            // bulk constructors / weak_many racing with ordinary traffic on the same count word
+            p.name = "c10b";
+            p.no_pool = true;
+            p.prefill = 8;
+            p.threads = (3, 4);
+            p.nroots = 2;
+            p.nwroots = 1;
+            let maker = Role {
+                name: "bulk-maker",
+                weights: w(&[(K::NewMany, 10), (K::NewIter, 8), (K::IterNext, 10), (K::IterDrop, 4), (K::IterAbort, 4), (K::Store, 8), (K::Swap, 3), (K::DropRc, 8), (K::WeakMany, 6), (K::Unpin, 3), (K::Finalize, 2), (K::Churn, 3)]),
+                ops: (8, 24),
+            };
+            let downgrader = Role {
+                name: "bulk-downgrader",
+                weights: w(&[(K::Load, 8), (K::Counted, 8), (K::WeakMany, 14), (K::WeakDrop, 6), (K::DropRc, 6), (K::Deref, 3), (K::Unpin, 3), (K::Upgrade, 6), (K::New, 2), (K::WStore, 2)]),
+                ops: (6, 20),
+            };
+            let churner = Role {
+                name: "strong-churner",
+                weights: w(&[(K::Load, 8), (K::Counted, 8), (K::Clone, 8), (K::DropRc, 10), (K::Unpin, 3), (K::Finalize, 2), (K::Deref, 2), (K::Churn, 4), (K::WLoad, 2), (K::WsUpgrade, 3), (K::Upgrade, 3)]),
+                ops: (6, 20),
+            };
+            p.roles = vec![maker, downgrader, churner];
+            p.stall_sites = vec![S::INCW_CAS, S::INCW_CAS, S::INCW_CAS, S::INCW_LOAD, S::INCW_ADD1, S::DISP_WEAKED, S::DECS_CAS, S::DECS_LOAD, S::TD_LOAD, S::TD_CAS, S::INCS_ADD2, 120];
+        }
         "c01g" => {
             // "late upgrader against a due destruction attempt"
             p.name = "c01g";
@@ -360,7 +436,7 @@ pub fn profile(name: &str) -> Profile {
                 ops: (4, 12),
             };
             p.roles = vec![upgrader, upgrader2];
-            p.stall_sites = vec![S::TD_LOAD, S::TD_CAS, S::TD_CAS, S::TD_CAS, S::BAG_CALL, S::COLLECT_POP, S::COLLECT_AFTER_ADVANCE, S::DISP_LOAD, S::DISP_CHILD_CAS, S::DISP_WEAKED, S::DECS_CAS];
+            p.stall_sites = vec![S::TD_LOAD, S::TD_CAS, S::TD_CAS, S::TD_CAS, S::BAG_CALL, S::COLLECT_POP, S::COLLECT_AFTER_ADVANCE, S::DISP_LOAD, S::DISP_EPOCH, S::DISP_EPOCH, S::DISP_EPOCH, S::DISP_CHILD_CAS, S::DISP_WEAKED, S::DECS_CAS];
         }
         "tiny" => {
             // small programs for Miri (about four orders of magnitude slower than native)
@@ -686,7 +762,7 @@ fn audit(sh: &Shared, phase: &str) {
             if es == 0 {
                 mon::violation(
                     "C04",
-                    "C04|leak-unowned-object",
+                    &format!("C04|leak-unowned-object{}", mon::bulk_tag(j as u32)),
                     format!("{}: obj {} has no owner left, nothing pending, but was never destructed (count word {:?})", phase, j, c),
                 );
             }
@@ -742,7 +818,7 @@ fn audit_final(phase: &str) {
             let c = if de == 0 { Some(unsafe { circ::verif::counts_at::<VNode>(o.addr.load(SeqCst)) }) } else { None };
             mon::violation(
                 "C04",
-                if drop_ == 0 { "C04|leak-object-at-end" } else { "C04|leak-block-at-end" },
+                &format!("{}{}", if drop_ == 0 { "C04|leak-object-at-end" } else { "C04|leak-block-at-end" }, mon::bulk_tag(j as u32)),
                 format!("{}: obj {} pop_edges={} drop={} dealloc={} after all handles were released and collection ran (count word {:?})", phase, j, pop, drop_, de, c),
             );
         }
